@@ -73,6 +73,25 @@ Proof.
   destruct H as (n & r0 & _ & _ & H & _). eapply prep_Forall; eauto.
 Qed.
 
+(* layout of a count-prefixed list: if the element parser consumes exactly [enc a], the list parser
+   consumes the count followed by the concatenated encodings *)
+Lemma prep_layout {A} (p : parser A) (enc : A -> list Z) :
+  (forall l a r, p l = Some (a, r) -> l = enc a ++ r) ->
+  forall n l xs r, prep p n l = Some (xs, r) -> l = flat_map enc xs ++ r.
+Proof.
+  intros HP. induction n as [|n IH]; cbn; intros l xs r H.
+  - apply pret_some in H. destruct H as [-> ->]. reflexivity.
+  - apply pbind_some in H. destruct H as (a & r1 & Ha & H). apply pbind_some in H. destruct H as (t & r2 & H & H').
+    apply pret_some in H'. destruct H' as [-> ->]. apply HP in Ha. apply IH in H. subst. cbn. rewrite <- app_assoc. reflexivity.
+Qed.
+Lemma plist_any_layout {A} (p : parser A) (enc : A -> list Z) :
+  (forall l a r, p l = Some (a, r) -> l = enc a ++ r) ->
+  forall l xs r, plist_any p l = Some (xs, r) -> l = Z.of_nat (length xs) :: flat_map enc xs ++ r.
+Proof.
+  intros HP l xs r H. unfold plist_any in H. apply plist_some in H.
+  destruct H as (n & r0 & -> & _ & H & L). apply (prep_layout p enc HP) in H. subst. reflexivity.
+Qed.
+
 (* ---------- p_Zs: count, then that many integers ---------- *)
 Lemma ptake_some : forall l k acc xs r, ptake l k acc = Some (xs, r) ->
   exists ys, xs = rev acc ++ ys /\ l = ys ++ r /\ Z.of_nat (length ys) = Z.max k 0.
@@ -91,6 +110,13 @@ Proof.
   destruct (k <? 0) eqn:E; [discriminate|]. apply Z.ltb_ge in E.
   apply ptake_some in H. destruct H as (ys & -> & -> & L). cbn. f_equal. lia.
 Qed.
+
+Definition enc_Zs (xs : list Z) : list Z := Z.of_nat (length xs) :: xs.
+Lemma p_Zs_layout : forall l xs r, p_Zs l = Some (xs, r) -> l = enc_Zs xs ++ r.
+Proof. intros l xs r H. apply p_Zs_some in H. exact H. Qed.
+Definition enc_Zss (xss : list (list Z)) : list Z := Z.of_nat (length xss) :: flat_map enc_Zs xss.
+Lemma p_Zss_layout : forall l xss r, plist_any p_Zs l = Some (xss, r) -> l = enc_Zss xss ++ r.
+Proof. intros l xss r H. apply (plist_any_layout p_Zs enc_Zs p_Zs_layout) in H. exact H. Qed.
 
 (* ---------- p_graph: n, then per node its degree and its targets ---------- *)
 Definition enc_adj (l : list N) : list Z := Z.of_nat (length l) :: ZsN l.
